@@ -51,6 +51,20 @@ func (self *BinaryConv) doGo(ctx context.Context, src string, desc *thrift.TypeD
 	return nil
 }
 
+// decodeString returns the content of the JSON string that json.DecodeValue() found to end at s[end-1]
+func decodeString(s string, v types.JsonState, end int) (string, error) {
+	str := s[v.Iv : end-1]
+	if v.Ep < 0 {
+		return str, nil
+	}
+	// NOTICE: strconv.Unquote() can't be used here, JSON escapes are not those of Go
+	buf, ret := json.Unquote(make([]byte, 0, len(str)), str)
+	if ret < 0 {
+		return "", errSyntax(s, ret)
+	}
+	return rt.Mem2Str(buf), nil
+}
+
 func (self *BinaryConv) doRecurse(ctx context.Context, s string, jp int, desc *thrift.TypeDescriptor, p *thrift.BinaryProtocol, req http.RequestGetter, depth int) (ret int, err error) {
 	n := len(s)
 	ret = jp
@@ -94,13 +108,8 @@ func (self *BinaryConv) doRecurse(ctx context.Context, s string, jp int, desc *t
 
 		case types.V_STRING:
 			var str string
-			if v.Ep >= 0 && v.Ep < int64(ret) {
-				str, err = strconv.Unquote(s[v.Iv-1 : ret])
-				if err != nil {
-					return
-				}
-			} else {
-				str = s[v.Iv : ret-1]
+			if str, err = decodeString(s, v, ret); err != nil {
+				return
 			}
 
 			if desc.IsBinary() && !self.opts.NoBase64Binary {
@@ -191,13 +200,8 @@ func (self *BinaryConv) doRecurse(ctx context.Context, s string, jp int, desc *t
 					ret = jp
 
 					var key string
-					if v.Ep >= 0 && v.Ep < int64(ret) {
-						key, err = strconv.Unquote(s[v.Iv-1 : ret])
-						if err != nil {
-							return
-						}
-					} else {
-						key = s[v.Iv : ret-1]
+					if key, err = decodeString(s, v, ret); err != nil {
+						return
 					}
 
 					ks := len(p.Buf)
@@ -272,13 +276,8 @@ func (self *BinaryConv) doRecurse(ctx context.Context, s string, jp int, desc *t
 					ret = jp
 
 					var key string
-					if v.Ep >= 0 && v.Ep < int64(ret) {
-						key, err = strconv.Unquote(s[v.Iv-1 : ret])
-						if err != nil {
-							return
-						}
-					} else {
-						key = s[v.Iv : ret-1]
+					if key, err = decodeString(s, v, ret); err != nil {
+						return
 					}
 
 					if jp, nt = json.Peek(s, ret); nt != json.Colon {
